@@ -56,7 +56,7 @@ def run_histories(jobs: List[Dict[str, Any]], wd: Path, *, module: str = "harnes
         jf = wd / f"jobs_{s['k']}_{s['gen']}.json"
         of = wd / f"out_{s['k']}_{s['gen']}.jsonl"
         jf.write_text(json.dumps(s["todo"]))
-        env = dict(os.environ, PYTHONPATH=str(VERIF), PYTHONHASHSEED="0", HDF5_USE_FILE_LOCKING="FALSE")
+        env = dict(os.environ, PYTHONPATH=os.pathsep.join([str(VERIF)] + [x for x in os.environ.get("PYTHONPATH", "").split(os.pathsep) if x]), PYTHONHASHSEED="0", HDF5_USE_FILE_LOCKING="FALSE")
         s["proc"] = subprocess.Popen([PY, "-m", module, str(jf), str(of)], cwd=str(VERIF), env=env,
                                      stdout=subprocess.DEVNULL, stderr=subprocess.PIPE)
         s["out"], s["last"], s["size"] = of, time.time(), -1
